@@ -69,6 +69,14 @@ def twofiles():
                     'sa': {'medium': 'json', 'tasks': ['X'], 'values': {'px': 1}}, 'sb': {'medium': 'yaml', 'tasks': ['X'], 'values': {'px': 1}}}, 'root': 'root', 'variants': {'v0': []}}
 
 
+def twons_diff():
+    """the same task under two namespaces with DIFFERENT parameters (two config files): results must not be swapped"""
+    d = twofiles()
+    d['name'] = 'twonsdiff'
+    d['configs']['sb']['values'] = {'px': 2}
+    return d
+
+
 def parts_nonmain():
     """the migrated config is a part of a multi-config file that is NOT the main part"""
     return {'name': 'partsnonmain', 'tasks': {
@@ -98,7 +106,7 @@ def resumable():
         'configs': {'root': {'medium': 'json', 'tasks': ['A', 'R'], 'values': {}}}, 'root': 'root', 'variants': {'v0': []}}
 
 
-WORLDS = {'empties': empties, 'resumable': resumable, 'chain3': chain3, 'diamond': diamond, 'types': types_world, 'samehash': two_parameterless, 'usesns': uses_ns, 'twofiles': twofiles, 'partsnonmain': parts_nonmain}
+WORLDS = {'twonsdiff': twons_diff, 'empties': empties, 'resumable': resumable, 'chain3': chain3, 'diamond': diamond, 'types': types_world, 'samehash': two_parameterless, 'usesns': uses_ns, 'twofiles': twofiles, 'partsnonmain': parts_nonmain}
 
 
 def listing(root):
@@ -280,7 +288,7 @@ def _job(items):
 def run(tier, seed):
     items = []
     seqs = [s for n in (1, 2, 3) for s in itertools.product((True, False), repeat=n)]
-    for wname in (['chain3', 'samehash', 'usesns', 'types', 'twofiles', 'partsnonmain', 'empties', 'resumable'] if tier == 'quick' else list(WORLDS)):
+    for wname in (['chain3', 'samehash', 'usesns', 'types', 'twofiles', 'twonsdiff', 'partsnonmain', 'empties', 'resumable'] if tier == 'quick' else list(WORLDS)):
         desc = WORLDS[wname]()
         n = len(refmodel.Model(worlds.apply_variant(desc, 'v0'), 'x').tasks)
         subsets = list(itertools.product((True, False), repeat=n))
